@@ -3,6 +3,7 @@ package transaction
 import (
 	"fmt"
 	"reflect"
+	"strings"
 	"time"
 
 	"github.com/go-logr/logr"
@@ -275,27 +276,61 @@ func (t *Transaction) checkIndexes() error {
 			if err != nil {
 				return err
 			}
-			err = t.Database.CheckIndexes(t.DbName, table, row)
-			errIndexExists, isErrIndexExists := err.(*cache.ErrIndexExists)
-			if err == nil {
+			// look up, index by index, the rows of the database that hold
+			// the same values: a row can collide with different rows on
+			// different indexes
+			err = t.checkDatabaseIndexes(table, tc, uuid, row)
+			if err != nil {
+				return err
+			}
+		}
+	}
+	return nil
+}
+
+// checkDatabaseIndexes checks that no row of the database, other than the ones
+// deleted or updated by the transaction, has the same values as the provided
+// row of the transaction in all the columns of a schema index.
+func (t *Transaction) checkDatabaseIndexes(table string, tc *cache.RowCache, uuid string, row model.Model) error {
+	schema := t.Model.Schema.Table(table)
+	info, err := t.Model.NewModelInfo(row)
+	if err != nil {
+		return err
+	}
+	for _, index := range schema.Indexes {
+		conditions := make([]ovsdb.Condition, 0, len(index))
+		values := make([]interface{}, 0, len(index))
+		for _, column := range index {
+			value, err := info.FieldByColumn(column)
+			if err != nil {
+				return err
+			}
+			ovsValue, err := ovsdb.NativeToOvs(schema.Column(column), value)
+			if err != nil {
+				return err
+			}
+			conditions = append(conditions, ovsdb.NewCondition(column, ovsdb.ConditionEqual, ovsValue))
+			values = append(values, value)
+		}
+		existing, err := t.Database.List(t.DbName, table, conditions...)
+		if err != nil {
+			return err
+		}
+		for existingUUID := range existing {
+			if existingUUID == uuid {
 				continue
 			}
-			if !isErrIndexExists {
-				return err
+			if _, isDeleted := t.DeletedRows[existingUUID]; isDeleted {
+				// this model is deleted in the transaction, ignore it
+				continue
 			}
-			for _, existing := range errIndexExists.Existing {
-				if _, isDeleted := t.DeletedRows[existing]; isDeleted {
-					// this model is deleted in the transaction, ignore it
-					continue
-				}
-				if tc.HasRow(existing) {
-					// this model is updated in the transaction and was not
-					// detected as a duplicate, so an index must have been
-					// updated, ignore it
-					continue
-				}
-				return err
+			if tc.HasRow(existingUUID) {
+				// this model is updated in the transaction and was not
+				// detected as a duplicate, so an index must have been
+				// updated, ignore it
+				continue
 			}
+			return cache.NewIndexExistsError(table, values, strings.Join(index, ","), uuid, []string{existingUUID})
 		}
 	}
 	return nil
